@@ -31,7 +31,7 @@ func init() {
 			"Whitespace and decoration handling of the rune state machine are NOT decided."})
 	register(&Check{ID: "C06", Modules: []string{"v2"}, Run: runC06,
 		Explanation: "Structural clauses behind 'notices, markers, hyphenation and spelling variants are ignored': (R06.1) the interchangeable-word table is well formed (letters-only lower-case keys map to letters-only lower-case values that are not keys); (R06.3) the hyphenation flags survive buffer refills; (R06.4) the https->http rewrite applies to every occurrence in a token, is repeated to a fixed point and is applied to the cleaned word as well (a cleaned word is a fixed point of the tokenizer); " +
-			"(R06.5) the text of a token is cleanupToken(position in line, word) computed at its own position; (R03.7) Copyright literals; (R06.2) Copyright pseudo-matches are kept apart from the overlap filter - fails today (known finding D12). Regex coverage of notice templates and list markers is NOT decided."})
+			"(R06.5) the text of a token is cleanupToken(position in line, word) computed at its own position; (R06.6) the notice patterns are consulted on every path to the token loop; (R06.7) the spelling table is consulted with the cleaned word; (R06.8) a word found in the list-marker table is a marker whatever its closing character; (R06.9) after the line buffer is emptied in the middle of a line the following words carry a non-zero position; (R03.7) Copyright literals; (R06.2) Copyright pseudo-matches are kept apart from the overlap filter - fails today (known finding D12). Regex coverage of notice templates is NOT decided."})
 	register(&Check{ID: "C11", Modules: []string{"v2"}, Run: runC11,
 		Explanation: "Thin structural clauses behind 'Normalize lines up with Match': (R11.1) non-interference: the line counter and every Line stored do not depend on the normalize/updateDict flags; (R11.2) Normalize and match use the same tokenizeStream and Normalize returns memory allocated by the call; (R11.3) the ignorable-line patterns are case-insensitive (Normalize sees un-lowered text); " +
 			"(R11.4) number clean-up cannot leave a trailing dot (idempotence under re-tokenisation); (R11.5) every word Normalize writes out is tested not to be the end-of-line token (sibling consistency: newlines come only from line numbers); (R11.9) Normalize writes a line break for every line a token lies behind the previous one; (R11.6) Normalize returns the text it wrote without trimming its beginning (leading line breaks stand for input lines); (R11.8) the word interned by the word flush went through HTML unescaping on every path, whatever the flags; (R06.7) the spelling table is consulted with the cleaned word; (R11.7) lower-case word tables consulted by the token clean-up (list markers, spelling variants) are consulted with a case-folded key or only when normalising, because Normalize keeps the capital of a word's first letter; (R06.1) word-table idempotence. Header re-cleaning of numbered markers is NOT decided."})
@@ -832,7 +832,17 @@ func runC06(c *Ctx) {
 					continue
 				}
 				n++
-				okPos := ascendingIndex(cv.Call.Args[0])
+				// the position: the index of the loop over the words, plus (optionally) the position of the buffer's first
+				// word in its line, handed in as an integer parameter
+				posArg := cv.Call.Args[0]
+				if bo, isBo := posArg.(*ssa.BinOp); isBo && bo.Op == token.ADD {
+					if _, isPrm := core.Unspill(bo.X).(*ssa.Parameter); isPrm {
+						posArg = bo.Y
+					} else if _, isPrm := core.Unspill(bo.Y).(*ssa.Parameter); isPrm {
+						posArg = bo.X
+					}
+				}
+				okPos := ascendingIndex(posArg)
 				// the cleaned text must go straight to the dictionary (or to the caller), not into a cache
 				cached := false
 				for _, r := range *cv.Referrers() {
@@ -878,6 +888,9 @@ func runC06(c *Ctx) {
 	checkNoticePatternsUnconditional(c, p)
 	checkSpellingLookupOnCleanText(c, p)
 	checkMarkerTableDecides(c, p)
+
+	// R06.9 a line buffer that is emptied in the middle of a line is followed by words that are not at a line start
+	checkMidLineReset(c, p)
 
 	// R06.3 hyphenation flags survive refills
 	checkFlagsSurviveRefill(c, p)
@@ -1241,6 +1254,114 @@ func checkNoticePatternsUnconditional(c *Ctx, p *core.Prog) {
 		}
 	}
 	c.R.RequireMin("R06.6", "token literals behind the notice patterns", n, 1)
+}
+
+// checkMidLineReset: R06.9. List markers are recognised by their position in the line (first word). The tokenizer hands
+// the words collected so far to the document and empties its line buffer not only at a line break but also in the
+// middle of a line (after the remainder of a hyphenated word). The words that follow are then first in the buffer but
+// not first in their line: on the path of such a reset a loop-carried integer - the one that reaches the position
+// argument of the token clean-up through the hand-over call - must be set to a non-zero constant.
+func checkMidLineReset(c *Ctx, p *core.Prog) {
+	ts := p.Func(v2pkg, "tokenizeStream")
+	if ts == nil {
+		return
+	}
+	isNL := func(b *ssa.BasicBlock) bool {
+		for _, f := range core.FactsAt(b) {
+			if bo, ok := f.Cond.(*ssa.BinOp); ok && bo.Op == token.EQL && f.Truth {
+				if k, isK := core.ConstInt(bo.Y); isK && k == '\n' {
+					return true
+				}
+			}
+		}
+		return false
+	}
+	// hand-over calls: calls with a line parameter (an int stored into Line fields) and a slice argument
+	type handOver struct {
+		call *ssa.Call
+		buf  ssa.Value
+	}
+	var hos []handOver
+	for _, call := range core.CallsIn(ts) {
+		cv, ok := call.(*ssa.Call)
+		f := call.Common().StaticCallee()
+		if !ok || f == nil || core.FuncPkgPath(f) != v2pkg {
+			continue
+		}
+		hasLine := false
+		var buf ssa.Value
+		for i, a := range cv.Call.Args {
+			if i < len(f.Params) && isLineParam(f, i, 0) {
+				hasLine = true
+			}
+			if _, isSl := a.Type().Underlying().(*types.Slice); isSl {
+				buf = a
+			}
+		}
+		if hasLine && buf != nil {
+			hos = append(hos, handOver{cv, buf})
+		}
+	}
+	n := 0
+	for _, ho := range hos {
+		if isNL(ho.call.Block()) {
+			continue
+		}
+		// is the buffer emptied after this hand-over (a nil / empty value flows into its web from this block)?
+		reset := false
+		for v := range sliceFamily(ho.buf) {
+			ph, ok := v.(*ssa.Phi)
+			if !ok {
+				continue
+			}
+			for k, e := range ph.Edges {
+				pb := ph.Block().Preds[k]
+				if pb != ho.call.Block() && !ho.call.Block().Dominates(pb) {
+					continue
+				}
+				if cst, isC := e.(*ssa.Const); isC && cst.Value == nil {
+					reset = true
+				}
+			}
+		}
+		if !reset {
+			continue
+		}
+		n++
+		// an integer argument of a hand-over call whose web receives a non-zero constant from this block
+		marked := false
+		for _, ho2 := range hos {
+			for _, a := range ho2.call.Call.Args {
+				ph, ok := a.(*ssa.Phi)
+				if !ok {
+					continue
+				}
+				if bt, isB := ph.Type().Underlying().(*types.Basic); !isB || bt.Kind() != types.Int {
+					continue
+				}
+				seen := map[ssa.Value]bool{}
+				var walk func(x ssa.Value)
+				walk = func(x ssa.Value) {
+					px, ok := x.(*ssa.Phi)
+					if !ok || seen[x] {
+						return
+					}
+					seen[x] = true
+					for k, e := range px.Edges {
+						pb := px.Block().Preds[k]
+						if k2, isK := core.ConstInt(e); isK && k2 != 0 && (pb == ho.call.Block() || ho.call.Block().Dominates(pb)) {
+							marked = true
+						}
+						walk(e)
+					}
+				}
+				walk(ph)
+			}
+		}
+		c.R.Check(marked, "R06.9", "tokenizeStream: after the line buffer is emptied in the middle of a line, the following words are not taken for the start of a line", p.Pos(ho.call.Pos()),
+			"the position offset handed over with the next buffer is set to a non-zero constant on this path", "the words that follow on the same line are collected in a fresh buffer and the first of them gets position 0: if it looks like a list marker (\"2)\", \"10.\") it is dropped, so a hyphen-split word changes the tokens that follow it")
+	}
+	c.R.Count("R06.9:mid-line resets of the line buffer", n)
 }
 
 // checkMarkerTableDecides: R06.8. The property lists "1.", "a)", "iv.", "3.1." as markers: the closing character is
